@@ -578,7 +578,7 @@ pub fn run(o: &Opts) -> Report {
     let mut rep = Report::new("async");
     let mut rng = Rng::new(o.seed ^ 0xa57);
     let rt = tokio::runtime::Builder::new_current_thread().build().unwrap();
-    let configs = ["mem", "phys", "alt(mem)", "alt(phys)", "ovl(mem,mem)", "ovl(mem,mem,mem)", "ovl(phys,mem)", "alt(ovl(mem,mem))", "ovl(alt,alt)", "ghost(mem)", "ghost(phys)", "alt(ghost(mem))"];
+    let configs = ["mem", "phys", "alt(mem)", "alt(phys)", "ovl(mem,mem)", "ovl(mem,mem,mem)", "ovl(phys,mem)", "ovl(mem,phys)", "alt(ovl(mem,mem))", "ovl(alt,alt)", "ghost(mem)", "ghost(phys)", "alt(ghost(mem))"];
     let drivers = ["tokio", "async-std", "futures"];
     let (n_runs, n_ops) = if o.thorough() { (27, 50) } else { (9, 36) };
     let ts = TreeSpec { prop: "C15".into(), configs: vec![], corr_level: 1, spec_results: false, spec_snapshots: false, wrong_type_calls: true, root_calls: false, composite_ops: true, time_ops: false, preds: vec![] };
@@ -644,17 +644,35 @@ pub fn run(o: &Opts) -> Report {
             let mut snap = parse_snap(&sworld.exec(&format!("snap {} {}", cfg.target, uni)));
             let mut ops_desc = vec![];
             let mut whandle: Option<String> = None;
+            let mut retype: Vec<Op> = vec![];
+            let mut retyped = false;
             for _ in 0..n_ops {
                 if dead {
                     break;
                 }
                 let mut op: Op = gen_op(&mut rng, &ts, &snap, &cfg);
+                // overlays: a FILE at a path that can have children (often served by a lower layer) is now and
+                // then replaced by a directory with a child, which is then listed, walked and removed again:
+                // the per-layer probes of the listing meet "a path below a file" in the layer that still holds it
+                if cfg_kind.contains("ovl") && retype.is_empty() && !retyped && ops_desc.len() < 4 {
+                    let uni_all: Vec<&str> = universe().iter().cloned().collect();
+                    let cand: Vec<(&str, &str)> = uni_all.iter().cloned().filter(|p| snap.get(*p).map(|o| o.ex == "E" && o.md.starts_with('F')).unwrap_or(false)).filter_map(|p| uni_all.iter().cloned().find(|q| crate::tree_stream::parent_of(q) == p).map(|q| (p, q))).collect();
+                    if !cand.is_empty() {
+                        retyped = true;
+                        let (p, q) = *rng.pick(&cand[..]);
+                        let mk = |name: &'static str, path: &str| Op { name, path: path.to_string(), bytes: None, dest: None, time: None };
+                        retype = vec![mk("remove_file", p), mk("create_dir", p), mk("create_dir", q), mk("read_dir", q), mk("walk", p), mk("remove_dir", q), mk("remove_dir_all", p)];
+                    }
+                }
+                if !retype.is_empty() {
+                    op = retype.remove(0);
+                }
                 // a write handle kept open across other calls (memory-backed configurations: a std File
                 // writes through while an async-std File buffers, so open physical handles are not
                 // comparable in between): opened on a universe path, written and flushed now and then,
                 // with other calls aimed at its path in between (a second session on the same path,
                 // removal, re-creation), dropped at the latest at the end of the history
-                if !phys && !cfg_kind.contains("ghost") {
+                if !phys && !cfg_kind.contains("ghost") && retype.is_empty() {
                     let last = ops_desc.len() + 1 == n_ops;
                     if whandle.is_some() && (last || rng.chance(1, 6)) {
                         whandle = None;
@@ -675,6 +693,16 @@ pub fn run(o: &Opts) -> Report {
                         let p = rng.pick(&files[..]).to_string();
                         whandle = Some(p.clone());
                         op = Op { name: if rng.chance(1, 2) { "hcreate" } else { "happend" }, path: p, bytes: None, dest: None, time: None };
+                    }
+                }
+                if cfg_kind.contains("ovl") && whandle.is_none() && rng.chance(1, 10) {
+                    // overlays: recursive removal of a directory that has a non-empty SUB-directory (often one
+                    // that exists only in a lower layer): every level must be removed for good in both ports
+                    let uni_all: Vec<&str> = universe().iter().cloned().collect();
+                    let is = |p: &str, t: char| snap.get(p).map(|o| o.ex == "E" && o.md.starts_with(t)).unwrap_or(false);
+                    let deep: Vec<&str> = uni_all.iter().cloned().filter(|p| !p.is_empty() && is(p, 'D') && uni_all.iter().any(|q| crate::tree_stream::parent_of(q) == *p && is(q, 'D') && uni_all.iter().any(|r| crate::tree_stream::parent_of(r) == *q && snap.get(*r).map(|o| o.ex == "E").unwrap_or(false)))).collect();
+                    if !deep.is_empty() {
+                        op = Op { name: "remove_dir_all", path: rng.pick(&deep[..]).to_string(), bytes: None, dest: None, time: None };
                     }
                 }
                 if op.name == "write" && rng.chance(1, 2) {
@@ -758,6 +786,11 @@ pub fn run(o: &Opts) -> Report {
                                 // async-std's File reports end-of-file for good after a zero-length read:
                                 // a quirk of the runtime's file type, not of the port; not generated there
                                 0 => format!("hread 0 {}", if phys { *rng.pick(&[1usize, 2, 7, 64][..]) } else { *rng.pick(&[0usize, 1, 2, 7, 64][..]) }),
+                                1 if !phys && rng.chance(1, 3) => {
+                                    // positions near the ends of the offset range (in-memory handles): a read
+                                    // there returns 0 bytes on the sync handle, whatever the buffer size
+                                    rng.pick(&["hseek 0 start 18446744073709551612", "hseek 0 start 18446744073709551615", "hseek 0 start 9223372036854775807", "hseek 0 end 9223372036854775807", "hseek 0 cur 9223372036854775800"][..]).to_string()
+                                }
                                 1 => format!("hseek 0 start {}", rng.below(data.len() + 3)),
                                 _ => rng.pick(&seeks[..]).to_string(),
                             };
